@@ -172,7 +172,7 @@ func (p *Packer) Pack(src string, w io.Writer) (*Meta, error) {
 	}
 
 	// Walk the tree of files.
-	err = filepath.Walk(src, p.packWalkFn(src, src, src, tarW, meta, ignoreRules))
+	err = filepath.Walk(src, p.packWalkFn(src, src, src, tarW, meta, ignoreRules, nil))
 	if err != nil {
 		return nil, err
 	}
@@ -190,7 +190,9 @@ func (p *Packer) Pack(src string, w io.Writer) (*Meta, error) {
 	return meta, nil
 }
 
-func (p *Packer) packWalkFn(root, src, dst string, tarW *tar.Writer, meta *Meta, ignoreRules *ignorefiles.Ruleset) filepath.WalkFunc {
+// visiting holds the directories that are currently being archived in place
+// of a symlink (outermost first); it is used to detect symlink cycles.
+func (p *Packer) packWalkFn(root, src, dst string, tarW *tar.Writer, meta *Meta, ignoreRules *ignorefiles.Ruleset, visiting []os.FileInfo) filepath.WalkFunc {
 	return func(path string, info os.FileInfo, err error) error {
 		if err != nil {
 			return err
@@ -286,7 +288,16 @@ func (p *Packer) packWalkFn(root, src, dst string, tarW *tar.Writer, meta *Meta,
 			// If the target is a directory we can recurse into the target
 			// directory by calling the packWalkFn with updated arguments.
 			if resolved.info.IsDir() {
-				return filepath.Walk(resolved.absTarget, p.packWalkFn(root, resolved.absTarget, path, tarW, meta, ignoreRules))
+				// A directory that is already being archived through a symlink
+				// and is reached again from inside itself would be archived
+				// forever (the recursion only ended when the stack overflowed).
+				for _, dir := range visiting {
+					if os.SameFile(dir, resolved.info) {
+						return fmt.Errorf("symlink %q leads back to a directory that contains it (symlink cycle)", path)
+					}
+				}
+				inner := append(visiting[:len(visiting):len(visiting)], resolved.info)
+				return filepath.Walk(resolved.absTarget, p.packWalkFn(root, resolved.absTarget, path, tarW, meta, ignoreRules, inner))
 			}
 
 			// The target may be something that cannot be archived (fifo, socket,
